@@ -41,6 +41,12 @@ def fault_pool(ctx):
             if rng.random() < 0.5:
                 sp["options"]["gp_warnings"] = True
             specs.append(sp)
+    # documented alternatives for the GP mean function: their hyper-parameters have other (partly unset) priors, which the retry paths sample from
+    for mf in ("negquad", "zero"):
+        for mode in (("det", "decl") if ctx.quick else ("det", "decl", "he")):
+            sp = gen.make_spec(rng, D=rng.choice([1, 2]), geom="box", mode=mode, cons=None, target="quad")
+            sp["options"] = {"n_search": 32, "max_fun_evals": (sp["D"] + 24) if mode == "det" else 58, "noise_final_samples": 3, "gp_mean_fun": mf}
+            specs.append(sp)
     clean = tracer.cached("c16clean", ctx.seed, ctx.tier, lambda: [(sp, {"want": ("ctl", "gp")}) for sp in specs])
     jobs, meta = [], []
     for sp, t in zip(specs, clean):
